@@ -241,7 +241,7 @@ func (l *Lexer) shiftRawText() []byte {
 						}
 						l.r.Move(1)
 					}
-					if h := ToHash(parse.ToLower(parse.Copy(l.r.Lexeme()[mark+2:]))); h == l.rawTag { // copy so that ToLower doesn't change the case of the underlying slice
+					if h := ToHash(parse.ToLower(parse.Copy(l.r.Lexeme()[mark+2:]))); h == l.rawTag && l.atTagNameEnd() { // copy so that ToLower doesn't change the case of the underlying slice
 						l.r.Rewind(mark)
 						return l.r.Shift()
 					}
@@ -267,7 +267,7 @@ func (l *Lexer) shiftRawText() []byte {
 								}
 								l.r.Move(1)
 							}
-							if h := ToHash(parse.ToLower(parse.Copy(l.r.Lexeme()[mark:]))); h == Script { // copy so that ToLower doesn't change the case of the underlying slice
+							if h := ToHash(parse.ToLower(parse.Copy(l.r.Lexeme()[mark:]))); h == Script && l.atTagNameEnd() { // copy so that ToLower doesn't change the case of the underlying slice
 								if !isEnd {
 									inScript = true
 								} else {
@@ -537,7 +537,7 @@ func (l *Lexer) shiftXML(rawTag Hash) []byte {
 				}
 				l.r.Move(1)
 			}
-			if h := ToHash(parse.ToLower(parse.Copy(l.r.Lexeme()[mark+2:]))); h == rawTag { // copy so that ToLower doesn't change the case of the underlying slice
+			if h := ToHash(parse.ToLower(parse.Copy(l.r.Lexeme()[mark+2:]))); h == rawTag && l.atTagNameEnd() { // copy so that ToLower doesn't change the case of the underlying slice
 				break
 			}
 		} else if c == 0 {
@@ -596,6 +596,12 @@ func (l *Lexer) moveTemplate() {
 }
 
 ////////////////////////////////////////////////////////////////
+
+// atTagNameEnd returns true if the tag name that was just read ends here, ie. it is followed by whitespace, / or >, or by the end of the input.
+func (l *Lexer) atTagNameEnd() bool {
+	c := l.r.Peek(0)
+	return c == '>' || c == '/' || c == ' ' || c == '\t' || c == '\n' || c == '\r' || c == '\f' || c == 0 && l.r.Err() != nil
+}
 
 func (l *Lexer) at(b ...byte) bool {
 	for i, c := range b {
